@@ -105,6 +105,11 @@ def cases(tier, seed):
         for jt in itertools.product(["revolute", "prismatic", "fixed"], repeat=n):
             for root in ("fixed_generic", "floating"):
                 out.append(mk(shape, jt, root, "generic", "generic", "mixed"))
+    # fixed root link without <inertial> element (the usual 'world' / 'base' link)
+    for shape in ("chain1", "chain2"):
+        n = len(SHAPES[shape])
+        for jt in itertools.product(["revolute", "prismatic"], repeat=n):
+            out.append(mk(shape, jt, "fixed_generic", "generic", "generic", "generic", special="root_no_inertial"))
     # a joint that carries the name of a link declared later (different name spaces in URDF)
     for shape in ("chain2", "fork2"):
         n = len(SHAPES[shape])
@@ -259,6 +264,10 @@ def _model(case):
     m["massless"] = []
     if case.get("special") == "massless_leaf":
         m["massless"] = [n]  # the last link hangs on the last joint, which is fixed in these cases
+    if case.get("special") == "root_no_inertial":
+        m["root_no_inertial"] = True
+        m["i_present"][0] = False
+        m["i_xyz"][0], m["i_rpy"][0] = np.zeros(3), np.zeros(3)
     if case.get("special") == "name_clash":
         # the first joint carries the name of the LAST link (legal in URDF: links and joints live in different name spaces)
         m["jnames"] = {0: f"L{n}"}
@@ -284,6 +293,9 @@ def _urdf_text(m):
     L = ['<?xml version="1.0"?>', '<robot name="vp_c28">']
     for i in range(m["n"] + 1):
         L.append(f' <link name="L{i}">')
+        if i == 0 and m.get("root_no_inertial"):
+            L.append(" </link>")
+            continue
         L.append("  <inertial>")
         if m["i_present"][i]:
             L.append(f'   <origin xyz="{_vec(m["i_xyz"][i])}" rpy="{_vec(m["i_rpy"][i])}"/>')
@@ -496,11 +508,19 @@ def check(case):
             try:
                 cfg_in = {k: (v.copy() if hasattr(v, "copy") else v) for k, v in cfg.items()}
                 vel_in = {k: (v.copy() if hasattr(v, "copy") else v) for k, v in vel.items()}
+                r_in, A_in = m["r_OR"].copy(), m["A_IR"].copy()
                 with quiet():
-                    system = system_from_urdf(
-                        path, r_OR=m["r_OR"].copy(), A_IR=m["A_IR"].copy(), v_R=m["v_R"].copy(), R_omega_IR=m["R_om"].copy(),
-                        configuration=cfg_in, velocities=vel_in,
-                        root_is_floating=m["root_floating"], gravitational_acceleration=m["grav"].copy())
+                    if s in ("a", "cfg_only"):
+                        # the documented parameter order used positionally
+                        system = system_from_urdf(path, r_in, A_in, m["v_R"].copy(), m["R_om"].copy(), cfg_in, vel_in, m["root_floating"], m["grav"].copy())
+                    else:
+                        system = system_from_urdf(
+                            path, r_OR=r_in, A_IR=A_in, v_R=m["v_R"].copy(), R_omega_IR=m["R_om"].copy(),
+                            configuration=cfg_in, velocities=vel_in,
+                            root_is_floating=m["root_floating"], gravitational_acceleration=m["grav"].copy())
+                # the caller re-uses its pose buffers afterwards (e.g. for the next robot): the imported system keeps its own values
+                r_in += 1.7
+                A_in[:] = A_in @ np.array([[0.0, -1.0, 0.0], [1.0, 0.0, 0.0], [0.0, 0.0, 1.0]])
                 # the caller's dictionaries are inputs: an import must leave them as they were (they are reused for the next import)
                 for nm_, d_in, d_ref in (("configuration", cfg_in, cfg), ("velocities", vel_in, vel)):
                     same = sorted(d_in) == sorted(d_ref) and all(np.array_equal(np.asarray(d_in[k]), np.asarray(d_ref[k])) for k in d_ref)
